@@ -2399,8 +2399,86 @@ func init() {
 			// manifests that are not referrers on this error and uses the empty subject as ‘none seen yet’; a nil error with
 			// an empty subject makes it list such a manifest as a referrer, or file a response under the subject "".
 			{
+				// presentAtom: the conditional edge establishes that the Subject of value `of` is present
+				var presentAtom func(ifi *ssa.If, succ int, of ssa.Value) bool
+				presentAtom = func(ifi *ssa.If, succ int, of ssa.Value) bool {
+					isSubj := func(v ssa.Value) bool {
+						root, pth := accessPath(an.Strip(v))
+						if len(pth) == 0 || pth[0] != "Subject" {
+							return false
+						}
+						if root == of || an.Origin(root) == an.Origin(of) {
+							return true
+						}
+						// a value receiver spilled into a local of the predicate
+						if al, isAl := root.(*ssa.Alloc); isAl {
+							if sv := an.SingleStore(al); sv != nil && an.Strip(sv) == an.Strip(of) {
+								return true
+							}
+						}
+						return false
+					}
+					if x, nilSucc, ok := an.NilTest(ifi); ok && succ != nilSucc && isSubj(x) {
+						return true
+					}
+					if x, y, op, ok := an.CmpTest(ifi); ok {
+						for _, pr := range [][2]ssa.Value{{x, y}, {y, x}} {
+							if s0, isS := an.ConstString(pr[1]); isS && s0 == "" && isSubj(pr[0]) {
+								if (op == token.NEQ && succ == 0) || (op == token.EQL && succ == 1) {
+									return true
+								}
+							}
+						}
+					}
+					return false
+				}
 				subjectPresent := func(b *ssa.BasicBlock) bool {
 					for _, g := range an.GuardingEdges(b) {
+						// a predicate of the parsed manifest (`referrer.hasSubject()`): the edges every execution with that answer
+						// has taken inside it
+						for _, fe := range an.ImpliedHelperEdges(g) {
+							if fe.Callee != nil && len(fe.Callee.Params) > 0 {
+								if hifi := an.BlockIf(fe.From); hifi != nil && presentAtom(hifi, fe.Succ, fe.Callee.Params[0]) {
+									return true
+								}
+							}
+						}
+						// …also when the predicate returns a materialised conjunction (`return p.Subject != nil && p.Subject.Digest != ""`):
+						// an answer of true came through a predecessor whose operand is not the constant false
+						if pc, trueSucc, isCall := an.BoolCallTest(g.If()); isCall && g.Succ == trueSucc {
+							if h := pc.Call.StaticCallee(); h != nil && len(h.Blocks) > 0 && len(h.Params) > 0 && core.FuncPkgPath(h) == core.FuncPkgPath(fn) {
+								all, any := true, false
+								an.Instrs(h, func(in ssa.Instruction) {
+									ret, isRet := in.(*ssa.Return)
+									if !isRet || len(ret.Results) != 1 {
+										return
+									}
+									ph, isPhi := an.Strip(ret.Results[0]).(*ssa.Phi)
+									if !isPhi {
+										all = false
+										return
+									}
+									for pi, pred := range ph.Block().Preds {
+										if cv, isC := an.ConstBool(ph.Edges[pi]); isC && !cv {
+											continue
+										}
+										any = true
+										okPred := false
+										for _, hg := range an.GuardingEdges(pred) {
+											if presentAtom(hg.If(), hg.Succ, h.Params[0]) {
+												okPred = true
+											}
+										}
+										if !okPred {
+											all = false
+										}
+									}
+								})
+								if all && any {
+									return true
+								}
+							}
+						}
 						ifi := g.If()
 						if x, nilSucc, ok := an.NilTest(ifi); ok && g.Succ != nilSucc {
 							if root, pth := accessPath(an.Strip(x)); root == parsed && len(pth) > 0 && pth[0] == "Subject" {
